@@ -6,6 +6,8 @@ for name in sorted(os.listdir(os.path.join(V, "seeded"))):
     d = os.path.join(V, "seeded", name)
     if not os.path.isdir(d) or (only and name not in only):
         continue
+    if not os.path.exists(os.path.join(d, "meta.agent.json")):
+        continue  # (self-made changes carry a hand-written meta.json)
     prop = name.split("-")[0]
     agent = json.load(open(os.path.join(d, "meta.agent.json")))
     # demonstration on the clean tree and on the patched tree is part of mutcheck's worktree run
